@@ -509,17 +509,19 @@ def gen_calls(rng, tier):
                               'shape': shape}, (kind, uf.__name__, 'call2', outk, len(shape))
             # ---- reduce
             for bname in BOPS:
-                for axk in ['absent', 'none', 'int', 'neg', 'tuple', 'tuple-all', 'empty-tuple', 'oob', 'dup']:
+                for axk in ['absent', 'none', 'int', 'neg', 'neg-lead1', 'tuple', 'tuple-all', 'empty-tuple', 'oob', 'dup']:
                     for outk in ['none', 'same', 'arr', 'keepdims', 'dtkw']:
                         dtype = rng.choice(['float64', 'float64', 'int64', 'float32'])
                         if outk == 'dtkw':
                             dtype = 'float64'
                         bufs = []
                         shape = rand_shape(rng)
+                        if axk == 'neg-lead1':
+                            shape = (1,) + tuple(rand_shape(rng, rng.choice([1, 2])))
                         nd = len(shape)
                         x = mk_elem(rng, kind, shape, bufs, dtype, -2, 2)
                         axis = {'absent': 'absent', 'none': None, 'int': rng.randrange(nd),
-                                'neg': -rng.randint(1, nd),
+                                'neg': -rng.randint(1, nd), 'neg-lead1': -nd,
                                 'tuple': tuple(sorted(rng.sample(range(nd), rng.randint(1, nd)))),
                                 'tuple-all': tuple(range(nd)), 'empty-tuple': (),
                                 'oob': nd, 'dup': (0, 0)}[axk]
@@ -846,7 +848,7 @@ def probe_key(spec, cat):
     if sk in ('tens', 'disc') and cat == 'raises' and kw.get('dtype') and isinstance(spec['space'].get('weighting'), list) \
             and not np.can_cast(spec['space'].get('wdtype', 'float64'), kw['dtype']):
         return 'tensor-dtype-kw-array-weighting'
-    if sk == 'disc' and m == 'reduce' and cat == 'raises':
+    if sk == 'disc' and m == 'reduce' and cat in ('raises', 'shape'):
         ax = kw.get('axis')
         axs = ax if isinstance(ax, (list, tuple)) else [ax]
         if ax is not None and any(a < 0 for a in axs):
@@ -860,7 +862,7 @@ def probe_key(spec, cat):
             return 'pspace-call-broadcast-grow'
         if spec.get('out') is not None and spec['out']['kind'] == 'elem' and cat == 'raises':
             return 'pspace-out-element-unsupported'
-        if cat == 'dtype':
+        if cat == 'dtype' or (cat == 'values' and m == 'call' and spec['space']['base']['dtype'] == 'float32'):
             return 'pspace-result-dtype-forced-to-space-dtype'
         if cat == 'values' and np.dtype(spec['space']['base']['dtype']).kind in 'iub':
             return 'pspace-integer-space-truncates-float-results'
